@@ -80,3 +80,91 @@ gate_flags = st.one_of(
     st.sets(st.integers(0, 22), max_size=3).map(lambda s: [i not in s for i in range(23)]),
     st.sampled_from([[True] * 23, [False] * 23, [i < 2 for i in range(23)], [2 <= i < 22 for i in range(23)], [i == 22 for i in range(23)]]),
 )
+
+
+# ------------------------------------------------------------------------------------------ valid transform programs (C04, C07, C13, C14)
+_token = st.text(alphabet=token_chars + "-_", min_size=1, max_size=10).map(lambda s: s.encode())
+_printable_arg = st.text(alphabet=token_chars + "-_.~", max_size=12).map(lambda s: s.encode())
+
+
+@st.composite
+def valid_client_program(draw, kinds=("metadata",), printable=False, allow_uri_append=True, max_encoders=6):
+    """A program the client can execute and the server can invert: per kind one BUILD block with 0..max encoders and
+    exactly one termination (distinct targets), plus 0-3 static decorations.  With ``printable`` every header /
+    parameter / URI placement carries printable bytes (last non-affix encoder is base64/base64url/netbios/netbiosu and
+    affixes are printable)."""
+    steps = []
+    used_headers, used_params = set(), set()
+    used_print = used_uri = False
+    for kind in kinds:
+        options = []
+        if not used_print:
+            options.append("PRINT")
+        if allow_uri_append and not used_uri:
+            options.append("URI_APPEND")
+        options += ["HEADER", "PARAMETER"]
+        term = draw(st.sampled_from(options))
+        needs_printable = printable and term != "PRINT"
+        n = draw(st.integers(0, max_encoders))
+        encs = []
+        for _ in range(n):
+            name = draw(st.sampled_from(["APPEND", "PREPEND", "BASE64", "BASE64URL", "NETBIOS", "NETBIOSU", "MASK"]))
+            if name in ("APPEND", "PREPEND"):
+                encs.append((name, draw(_printable_arg if needs_printable else arg_bytes)))
+            else:
+                encs.append((name, True))
+        if needs_printable:
+            # the last non-affix encoder must yield printable text
+            last = [i for i, (nm, _) in enumerate(encs) if nm not in ("APPEND", "PREPEND")]
+            text = draw(st.sampled_from(["BASE64", "BASE64URL", "NETBIOS", "NETBIOSU"]))
+            if not last:
+                encs.insert(0, (text, True))
+            elif encs[last[-1]][0] == "MASK":
+                encs.insert(last[-1] + 1, (text, True))
+            if term == "URI_APPEND":
+                # '/' '+' '=' of plain base64 are legal in a path but keep the URI unambiguous: use url-safe encoders
+                encs = [(("BASE64URL", True) if nm == "BASE64" else (nm, a)) for nm, a in encs]
+        steps.append(("BUILD", kind))
+        steps.extend(encs)
+        if term == "PRINT":
+            used_print = True
+            steps.append(("PRINT", True))
+        elif term == "URI_APPEND":
+            used_uri = True
+            steps.append(("URI_APPEND", True))
+        elif term == "HEADER":
+            name = draw(_token.filter(lambda t: t.lower() not in used_headers))
+            used_headers.add(name.lower())
+            steps.append(("HEADER", name))
+        else:
+            name = draw(_token.filter(lambda t: t not in used_params))
+            used_params.add(name)
+            steps.append(("PARAMETER", name))
+    for _ in range(draw(st.integers(0, 3))):
+        k = draw(st.sampled_from(["_HEADER", "_PARAMETER", "_HOSTHEADER"]))
+        if k == "_PARAMETER":
+            name = draw(_token.filter(lambda t: t not in used_params))
+            used_params.add(name)
+            val = draw(_printable_arg if printable else arg_bytes)
+            steps.append((k, name + b"=" + val))
+        else:
+            name = b"Host" if k == "_HOSTHEADER" else draw(_token.filter(lambda t: t.lower() not in used_headers and t.lower() != b"host"))
+            if name.lower() in used_headers:
+                continue
+            used_headers.add(name.lower())
+            val = draw(_printable_arg.filter(lambda v: v.strip() == v) if printable else arg_bytes)
+            steps.append((k, name + b": " + val))
+    return steps
+
+
+@st.composite
+def valid_recover_program(draw, max_steps=6):
+    """Server output program as stored in setting 11 (the order in which the beacon undoes it): print first."""
+    steps = [("print", True)]
+    for _ in range(draw(st.integers(0, max_steps))):
+        name = draw(st.sampled_from(["append", "prepend", "base64", "base64url", "netbios", "netbiosu", "mask"]))
+        if name in ("append", "prepend"):
+            steps.append((name, draw(st.one_of(st.just(0), st.integers(0, 8), st.integers(0, 64)))))
+        else:
+            steps.append((name, True))
+    return steps
